@@ -416,4 +416,84 @@ theorem safe_reproduceOne (hlaw : UnitMulLe W) (hpick : PickLaw W) (o : EpochOpt
                             exact post_finish (g1 := g1) hb'.1 (by simp [newOrganism]) hsh hb'.2.1
                         · exact post_finish (g1 := child) hr (by simp [newOrganism]) hsh hc'.1
 
+/-! ### reproduceLoop, reproduceSpecies, reproduceAll -/
+
+theorem safe_reproduceLoop (hlaw : UnitMulLe W) (hpick : PickLaw W) (o : EpochOpts W) (ha : ActOk o.mopts) (generation : Int)
+    (s : Species W) (sorted : List (Species W)) (champ : Org W) (P0 : List (Genome W)) (S : List Nat)
+    (hchamp : champ.genome ∈ P0) (hs : ∀ x ∈ s.orgs, x.genome ∈ P0)
+    (hsorted : ∀ sp ∈ sorted, ∀ x ∈ sp.orgs, x.genome ∈ P0)
+    (hne : s.orgs ≠ []) (hsne : sorted ≠ []) (hspne : ∀ sp ∈ sorted, sp.orgs ≠ [])
+    (n : Nat) (count : Int) (st : ReproState W) (rs : List Nat)
+    (hP : PoolOk st.reg (poolOf P0 st)) (hr : RecTraits S.length st.reg) (hsh : ∀ g ∈ poolOf P0 st, shape g = S) :
+    Safe (fun st' => ReproPost S P0 st' ∧ PoolOk st'.reg (poolOf P0 st'))
+      (reproduceLoop o generation s sorted champ n count st rs) := by
+  induction n generalizing count st rs with
+  | zero => unfold reproduceLoop; exact ⟨⟨hr, hsh⟩, hP⟩
+  | succ k ih =>
+    unfold reproduceLoop
+    have h1 := (safe_reproduceOne hlaw hpick o ha generation s sorted champ count st rs P0 S hchamp hs hsorted hne hsne hspne
+      hP hr hsh).and_ok (Q := fun st' => ReproPost S P0 st' ∧ PoolOk st'.reg (poolOf P0 st'))
+      (fun st' rs' e hp => ⟨hp, reproduceOne_closed o generation s sorted champ count st st' rs rs' P0 hchamp hs hsorted hP e⟩)
+    split
+    · next e he => rw [he] at h1; exact h1.of_error
+    · next st' rs' he =>
+      rw [he] at h1
+      have h1' : ReproPost S P0 st' ∧ PoolOk st'.reg (poolOf P0 st') := h1
+      exact ih (count + 1) st' rs' h1'.2 h1'.1.1 h1'.1.2
+
+/-- the state of the pool between species: registry invariant, pool invariant, one shape -/
+structure PoolEnv (S : List Nat) (reg : Reg W) (P : List (Genome W)) : Prop where
+  pool : PoolOk reg P
+  recs : RecTraits S.length reg
+  shaped : ∀ g ∈ P, shape g = S
+
+/-- **`Species.reproduce` never fails** on a non-empty species -/
+theorem safe_reproduceSpecies (hlaw : UnitMulLe W) (hpick : PickLaw W) (o : EpochOpts W) (ha : ActOk o.mopts) (generation : Int)
+    (s : Species W) (sorted : List (Species W)) (reg : Reg W) (uid : Nat) (rs : List Nat) (P0 : List (Genome W)) (S : List Nat)
+    (hs : ∀ x ∈ s.orgs, x.genome ∈ P0) (hsorted : ∀ sp ∈ sorted, ∀ x ∈ sp.orgs, x.genome ∈ P0)
+    (hne : s.orgs ≠ []) (hsne : sorted ≠ []) (hspne : ∀ sp ∈ sorted, sp.orgs ≠ [])
+    (henv : PoolEnv S reg P0) :
+    Safe (fun r => PoolEnv S r.2.1 (P0 ++ r.1.map (·.genome))) (reproduceSpecies o generation s sorted reg uid rs) := by
+  unfold reproduceSpecies
+  split
+  · next hn => cases hso : s.orgs with
+    | nil => exact absurd hso hne
+    | cons a l => rw [hso] at hn; cases hn
+  · next champ hchamp =>
+    simp only
+    have hl := safe_reproduceLoop hlaw hpick o ha generation s sorted champ P0 S (hs champ (List.mem_of_mem_head? hchamp)) hs hsorted
+      hne hsne hspne s.expectedOffspring.toNat 0
+      { superChamp := champ.superChampOffspring, champCloneDone := false, reg := reg, nextUid := uid, babies := [] } rs
+      (by simpa [poolOf] using henv.pool) henv.recs (by simpa [poolOf] using henv.shaped)
+    split
+    · next e he => rw [he] at hl; exact hl.of_error
+    · next st rs' he =>
+      rw [he] at hl
+      have hl' : ReproPost S P0 st ∧ PoolOk st.reg (poolOf P0 st) := hl
+      exact ⟨hl'.2, hl'.1.1, hl'.1.2⟩
+
+/-- **reproduction of all species never fails** -/
+theorem safe_reproduceAll (hlaw : UnitMulLe W) (hpick : PickLaw W) (o : EpochOpts W) (ha : ActOk o.mopts) (generation : Int)
+    (sorted : List (Species W)) (P0 : List (Genome W)) (S : List Nat)
+    (hsorted : ∀ sp ∈ sorted, ∀ x ∈ sp.orgs, x.genome ∈ P0) (hsne : sorted ≠ []) (hspne : ∀ sp ∈ sorted, sp.orgs ≠ [])
+    (ss : List (Species W)) (hss : ∀ s ∈ ss, ∀ x ∈ s.orgs, x.genome ∈ P0) (hssne : ∀ s ∈ ss, s.orgs ≠ [])
+    (reg : Reg W) (uid : Nat) (babies : List (Org W)) (rs : List Nat)
+    (henv : PoolEnv S reg (P0 ++ babies.map (·.genome))) :
+    Safe (fun r => PoolEnv S r.2.1 (P0 ++ r.1.map (·.genome))) (reproduceAll o generation sorted ss reg uid babies rs) := by
+  induction ss generalizing reg uid babies rs with
+  | nil => unfold reproduceAll; exact henv
+  | cons s t ih =>
+    unfold reproduceAll
+    have h1 := safe_reproduceSpecies hlaw hpick o ha generation s sorted reg uid rs (P0 ++ babies.map (·.genome)) S
+      (fun x hx => List.mem_append_left _ (hss s (by simp) x hx))
+      (fun sp hsp' x hx => List.mem_append_left _ (hsorted sp hsp' x hx))
+      (hssne s (by simp)) hsne hspne henv
+    split
+    · next e he => rw [he] at h1; exact h1.of_error
+    · next bs reg' uid' rs' he =>
+      rw [he] at h1
+      have h1' : PoolEnv S reg' ((P0 ++ babies.map (·.genome)) ++ bs.map (·.genome)) := h1
+      exact ih (fun s' hs' => hss s' (List.mem_cons_of_mem _ hs')) (fun s' hs' => hssne s' (List.mem_cons_of_mem _ hs'))
+        reg' uid' (babies ++ bs) rs' (by simpa [List.append_assoc] using h1')
+
 end GoNeat.NoErr
